@@ -339,6 +339,15 @@ def check_rel(prop, tier, seed, n_quick, n_thorough, grammars=None, rule="", **k
         from . import u2
         for rj in u2.run(prop, tier, seed, res, depth=3 if tier == "quick" else 5):
             res.violation(dict(signature(rj), part="u2-tlc-generated-script"), rj["replay"])
+    # the implementation-shaped model (spec/EngineImpl.tla): U1 = every bounded operation sequence of the model gives the
+    # reference engine's results, design slips are rejected; U2 = its behaviours replayed on the real engine (Trace_Lex)
+    if prop == "C11" or (prop in ("C01", "C12") and tier != "quick"):
+        from . import implmc
+        implmc.u1(res, tier)
+    if prop in ("C11", "C12") or (prop == "C01" and tier != "quick"):
+        from . import implmc
+        for rj in implmc.u2(prop, tier, seed, res):
+            res.violation(dict(signature(rj), part="u2-engineimpl-script"), rj["replay"])
     res.cov["rule"] = rule or ("episodes = random API-call walks recorded from the real engine over corpus grammars x "
                                "vocabularies (byte / synthetic multi-byte / BPE-like), validated event by event by TLC "
                                "against spec/EngineRel.tla; distinct = distinct recorded episodes with > 3 events")
